@@ -938,9 +938,11 @@ class EventBus:
             if get_next_queued_event is not None:
                 get_next_queued_event.cancel()
             raise
-        except (RuntimeError, QueueShutDown):
-            # Queue was shut down or the event loop is closing
+        except RuntimeError:
+            # The event loop is closing
             return None
+        # QueueShutDown is not caught here: _run_loop() exits on it. Swallowing it made a run loop that was
+        # (re)started on an already shut-down queue, e.g. by a dispatch() after stop(), spin forever
 
     async def step(
         self, event: 'BaseEvent[Any] | None' = None, timeout: float | None = None, wait_for_timeout: float = 0.1
